@@ -4,7 +4,6 @@ import (
 	"bytes"
 	"encoding/json"
 	"fmt"
-	"sync"
 )
 
 // SimpleNode is used as the default node type when there is no more appropriate
@@ -113,14 +112,14 @@ func (node *SimpleNode) AddNode(n Node) {
 	//
 	// We can't simply remove this node because we would have to make sure we
 	// work our way up the chain which we have no easy way of doing right now.
-	nodeCache = &sync.Map{}
+	resetNodeCache()
 }
 
 func (node *SimpleNode) DeleteNode(n Node) (didDelete bool) {
 	node.children, didDelete = node.children.deleteNode(n)
 
 	// The same as AddNode, NodesWithTag must not return the deleted node.
-	nodeCache = &sync.Map{}
+	resetNodeCache()
 
 	return
 }
@@ -232,7 +231,7 @@ func (node *SimpleNode) SetNodes(nodes Nodes) {
 	node.children = nodes
 
 	// The same as AddNode, NodesWithTag must see the new children.
-	nodeCache = &sync.Map{}
+	resetNodeCache()
 }
 
 func (node *SimpleNode) RawSimpleNode() *SimpleNode {
